@@ -32,6 +32,8 @@ class TraceRun:
         self.caught = []           # (site, class name, message prefix)
         self.caught_ctx = []       # (site, class name, dead?, depth)
         self.region_dead = {}      # (rid, branch) -> executed under a false effective guard
+        self.tracked = {}
+        self.open_blocks = 0
         self.outcome = None        # "completed" | "raised:<cls>"
         self.outcome_msg = ""
         self.steps = 0
@@ -167,6 +169,12 @@ class TraceRun:
         flags = self.ctx_flags(model)
         self.state_sigs.add((info.get("kind"), flags["depth"], tuple(tuple(m) for m in model),
                              flags["nocheck"], (self.cur_desc or {}).get("op")))
+        if not model and rt.guard is not None:
+            # inside a block-API region (the guard model of those is not tracked statically)
+            g = w.lc_of(rt.guard)
+            self.probe("step_in_block_region")
+            if g is not None and g.value == 0:
+                self.probe("step_under_false_block_guard")
         if flags["dead"]:
             self.probe("step_in_dead_region")
         if flags["depth"] >= 2:
@@ -281,6 +289,10 @@ class TraceRun:
             "__packinfo__": self.cb_packinfo, "__packout__": self.cb_packout,
             "PackBool": w.pack.PackBool, "PackIntMod": w.pack.PackIntMod, "PackList": w.pack.PackList,
             "PackRepeat": w.pack.PackRepeat,
+            "BranchingValues": w.branching.BranchingValues, "_if": w.branching._if, "_elif": w.branching._elif,
+            "_else": w.branching._else, "_endif": w.branching._endif, "_while": w.branching._while,
+            "_endwhile": w.branching._endwhile, "_breakif": w.branching._breakif, "_range": w.branching._range,
+            "_endfor": w.branching._endfor, "snark": rt.snark,
             "__name__": "__plan__",
         }
         fname = "<plan>"
@@ -328,6 +340,15 @@ class TraceRun:
                     self.violations.append(vio("C13", "operand_mutated", {"where": "constraint"},
                                                "constraint %d changed after emission" % i))
         self.finals.update(self.extra_finals)
+        ctx = self.globals.get("_")
+        if isinstance(ctx, w.branching.BranchingValues):
+            for nm, v in ctx.vals.items():
+                lc = w.lc_of(v)
+                self.tracked[nm] = (lc.value if lc is not None else v)
+                if lc is not None:
+                    self.finals["_." + nm] = (lc.value, W.canon_lc(lc.lc.lc, rec.p))
+            self.open_blocks = len(ctx.stack)
+            ctx.stack.clear()      # keep BranchingValues.__del__ quiet
         # collect final top-level variables
         for nm, v in self.globals.items():
             if nm[:2] in ("vI", "vB", "vF") and nm[2:].isdigit():
@@ -342,3 +363,22 @@ class TraceRun:
                 tuple(sorted(self.finals.items())), tuple(self.caught),
                 tuple((v["property"], v["oracle"], tuple(sorted((k, str(x)) for k, x in v["site"].items())))
                       for v in self.violations))
+
+
+def run_native(plan, inputs=None):
+    """Native-control-flow twin of a block-API plan: plain ints, native if/while/for.
+    Returns (outcome, {tracked name: value})."""
+    from .plan import CodeGen
+    gen = CodeGen(plan, "native")
+    src = gen.generate()
+    ident = lambda v: v
+    g = {"PrivVal": ident, "PubVal": ident, "PrivValBool": int, "PubValBool": int, "PrivValFxp": float,
+         "PubValFxp": float, "__inputs__": inputs if inputs is not None else [i["v"] for i in plan["inputs"]],
+         "__step__": lambda *a: None, "__caught__": lambda *a: None, "__CAUGHT__": (),
+         "__enter__": lambda *a: None, "__leave__": lambda *a: None}
+    try:
+        exec(compile(src, "<native>", "exec"), g)
+        outcome = "completed"
+    except Exception as e:
+        outcome = "raised:" + type(e).__name__
+    return outcome, {k[2:]: v for k, v in g.items() if k.startswith("T_")}, src
